@@ -132,11 +132,29 @@ def run_present_case(case: dict) -> dict:
             job = jobs[u] if k == pos else others[k % len(others)]
             pv.append(puml.job_to_pv(job, f"pad-{k}", name, None, 10 * k))
         out_extra = {"padded_unique_job": bool(uniq), "padded_jobs": total}
+    elif variant == "after-conversions":
+        # process history: other job sets (a twin of this definition over the same event names
+        # but with counts > 1, and an unrelated job set) are converted in THIS interpreter
+        # first; whatever the learner keeps between calls must not change this answer
+        import sys as _sys
+        prelude_done = 0
+        for k, pre in enumerate(case.get("prelude", [])):
+            pjobs = [puml.job_from_json(j) for j in pre["jobs"]]
+            ppv = gen.present(pjobs, rng, pre["name"], "base")
+            pres_ = learn.learn(ppv, pre["name"], lcase.STEP_BUDGET_BASE
+                                + lcase.STEP_BUDGET_PER_EVENT * sum(len(j) for j in ppv))
+            prelude_done += 1 if pres_["ok"] else 0
+        reseed = getattr(_sys.modules.get("__main__"), "seed_uuid", None)
+        if reseed is not None:
+            reseed(case.get("uuid_seed", 0))
+        pv = gen.present(jobs, rng, name, "base")
+        out_extra = {"prelude_conversions": len(case.get("prelude", [])),
+                     "prelude_conversions_ok": prelude_done}
     else:
         pv = gen.present(jobs, rng, name, variant)
     out: dict[str, Any] = {"status": "ok", "group": case["group"], "variant": case["variant"],
                            "uuid_seed": case.get("uuid_seed"), "rng_seed": case.get("rng_seed")}
-    if variant.startswith("padded:"):
+    if variant.startswith("padded:") or variant == "after-conversions":
         out.update(out_extra)
     try:
         fp = _norm_fp(ingest_only([list(j) for j in pv]))
